@@ -347,3 +347,30 @@ void __wrap_psUnlockMutex(psMutex_t *m)
     __real_psUnlockMutex(m);
     if (env_unlock_hook) env_unlock_hook(m);
 }
+
+/* ------------------------------------------------------------- key-log seam
+ * psHkdfExpandLabel is called by the TLS 1.3 key schedule (libssl_s.a -> libcrypt_s.a); the wrapper records
+ * (label, output) of the most recent derivations so that the attacker toolkit can act as a peer that knows its
+ * own traffic secrets (the moral equivalent of SSLKEYLOGFILE). */
+int32_t __real_psHkdfExpandLabel(psPool_t *pool, psCipherType_e hmacAlg, const unsigned char *secret, psSize_t secretLen,
+    const char *label, psSize_t labelLen, const unsigned char *context, psSize_t contextLen, psSize_t length, unsigned char *out);
+env_keylog_t env_keylog[ENV_KEYLOG_N];
+int env_keylog_n;
+int32_t __wrap_psHkdfExpandLabel(psPool_t *pool, psCipherType_e hmacAlg, const unsigned char *secret, psSize_t secretLen,
+    const char *label, psSize_t labelLen, const unsigned char *context, psSize_t contextLen, psSize_t length, unsigned char *out)
+{
+    int32_t rc = __real_psHkdfExpandLabel(pool, hmacAlg, secret, secretLen, label, labelLen, context, contextLen, length, out);
+    if (rc >= 0 && length <= 64)
+    {
+        env_keylog_t *e = &env_keylog[env_keylog_n % ENV_KEYLOG_N];
+        size_t l = labelLen < sizeof(e->label) - 1 ? labelLen : sizeof(e->label) - 1;
+        memcpy(e->label, label, l);
+        e->label[l] = 0;
+        memcpy(e->out, out, length);
+        e->outlen = length;
+        e->secret_tag = fnv1a(secret, secretLen, FNV0);
+        e->seq = env_keylog_n;
+        env_keylog_n++;
+    }
+    return rc;
+}
